@@ -149,8 +149,12 @@ Record cyc := mkC {
   c_sel   : option Z;                   (* selector source ticks with this value *)
   c_ticks : list (option (list Z));     (* per target: payload of its tick *)
   c_poke  : bool;                       (* the unrelated poke source ticks *)
-  c_force : bool }.                     (* every consumer is evaluated anyway: the first cycle of the
-                                           nested graph that holds the consumers (op 3) *)
+  c_force : bool;                       (* every consumer is evaluated anyway: the first cycle of the
+                                           nested graph that holds the consumers (op 3, 5) *)
+  c_nest  : bool }.                     (* op 5: the REFERENCE crosses into the nested graph and is dereferenced
+                                           inside; every evaluation of the nested node (reference tick or poke)
+                                           also evaluates the active consumers inside (observed; they read
+                                           modified = false) *)
 
 Definition tick_of (c : cyc) (i : nat) : option (list Z) := nth i (c_ticks c) None.
 Definition ticks (c : cyc) (i : nat) : bool := match tick_of c i with Some _ => true | None => false end.
@@ -265,7 +269,8 @@ Definition step (sh : shape) (op : Z) (st : state) (c : cyc) : state * cout :=
                     (match pub with Some _ => t | None => rlmt st end) l2 in
   (* phase 4: the consumers that were notified (or poked) are evaluated *)
   let r := read sh t ts l2 in
-  (st', mkO t (directs c ts) (consumers (bound_ticked || renot) (c_poke c) (c_force c) r)
+  let nest_eval := c_nest c && ((match pub with Some _ => true | None => false end) || c_poke c) in
+  (st', mkO t (directs c ts) (consumers (bound_ticked || renot || nest_eval) (c_poke c) (c_force c) r)
             (match pub with Some _ => true | None => false end)).
 
 Fixpoint run (sh : shape) (op : Z) (st : state) (cs : list cyc) : state * list cout :=
@@ -302,7 +307,7 @@ Fixpoint insert_uniq (t : Z) (l : list Z) : list Z :=
 
 (* op 3: the consumers live in a nested graph, whose first cycle (the start time: the
    scripted sources are scheduled on start, so that root cycle always exists) evaluates them all *)
-Definition nested_consumers (op : Z) : bool := op =? 3.
+Definition nested_consumers (op : Z) : bool := (op =? 3) || (op =? 5).
 
 Definition times (op s e : Z) (w : wire) : list Z :=
   fold_left (fun acc l => match script_line l with
@@ -321,7 +326,7 @@ Definition cyc_at (op s : Z) (w : wire) (t : Z) : cyc :=
   mkC t (match payload_at 0 t w with Some p => Some (hdz p) | None => None end)
       [payload_at 1 t w; payload_at 2 t w; if op =? 1 then payload_at 3 t w else None]
       (match payload_at 7 t w with Some _ => true | None => false end)
-      (nested_consumers op && (t =? s)).
+      (nested_consumers op && (t =? s)) (op =? 5).
 
 Definition enc_kv (m : kv) : list Z := Z.of_nat (length m) :: flat_map (fun e => [fst e; snd e]) m.
 Definition enc_keys (l : list Z) : list Z := Z.of_nat (length l) :: l.
